@@ -33,6 +33,9 @@ namespace cx
   {
     unsigned long long h[MAXSTEPS] = {};
     unsigned           n           = 0;
+    int                alloc_wrong_instance = 0; // blocks released through another allocator instance
+    int                alloc_unknown        = 0;
+    int                alloc_leaked         = 0;
   };
 
   struct hasher
@@ -76,6 +79,44 @@ namespace cx
   constexpr int val_of (const nontrivial& x) { return x.v * 2 + x.tag; }
 
   // --- a constexpr-capable stateful, fully propagating allocator ----------------------------
+  // All instances of a run share an arena that keeps a balance of live blocks per allocator id;
+  // a block released through an instance with another id, or still live at the end of the run,
+  // unbalances it (C04 under constant evaluation).
+  struct arena
+  {
+    // pointers to different allocations cannot be compared during constant evaluation, so the
+    // bookkeeping is a balance per allocator id: it must never go negative and end at zero
+    int live[4]         = {};
+    int wrong_instance  = 0;
+    int unknown         = 0;
+    int n               = 0;
+
+    constexpr void
+    note_alloc (const void *, int id)
+    {
+      ++live[id & 3];
+      ++n;
+    }
+
+    constexpr void
+    note_dealloc (const void *, int id)
+    {
+      if (--live[id & 3] < 0)
+        ++wrong_instance;
+      --n;
+    }
+
+    constexpr int
+    unbalanced (void) const
+    {
+      int u = 0;
+      for (int i = 0; i < 4; ++i)
+        if (live[i] != 0)
+          ++u;
+      return u;
+    }
+  };
+
   template <class T>
   struct prop_alloc
   {
@@ -84,13 +125,27 @@ namespace cx
     using propagate_on_container_move_assignment = std::true_type;
     using propagate_on_container_swap            = std::true_type;
     using is_always_equal                        = std::false_type;
-    int id = 0;
+    int    id = 0;
+    arena *ar = nullptr;
     constexpr prop_alloc (void) noexcept = default;
-    constexpr explicit prop_alloc (int i) noexcept : id (i) { }
+    constexpr prop_alloc (int i, arena *a) noexcept : id (i), ar (a) { }
     template <class U>
-    constexpr prop_alloc (const prop_alloc<U>& o) noexcept : id (o.id) { }
-    constexpr T *allocate (std::size_t n) { return std::allocator<T> ().allocate (n); }
-    constexpr void deallocate (T *p, std::size_t n) noexcept { std::allocator<T> ().deallocate (p, n); }
+    constexpr prop_alloc (const prop_alloc<U>& o) noexcept : id (o.id), ar (o.ar) { }
+    constexpr T *
+    allocate (std::size_t n)
+    {
+      T *q = std::allocator<T> ().allocate (n);
+      if (ar)
+        ar->note_alloc (q, id);
+      return q;
+    }
+    constexpr void
+    deallocate (T *p, std::size_t n) noexcept
+    {
+      if (ar)
+        ar->note_dealloc (p, id);
+      std::allocator<T> ().deallocate (p, n);
+    }
     template <class U>
     friend constexpr bool operator== (const prop_alloc& a, const prop_alloc<U>& b) noexcept { return a.id == b.id; }
     template <class U>
@@ -98,13 +153,16 @@ namespace cx
   };
 
   template <class A>
-  constexpr A make_alloc (int) { return A (); }
-  template <>
-  constexpr prop_alloc<int> make_alloc<prop_alloc<int>> (int id) { return prop_alloc<int> (id); }
-  template <>
-  constexpr prop_alloc<pod2> make_alloc<prop_alloc<pod2>> (int id) { return prop_alloc<pod2> (id); }
-  template <>
-  constexpr prop_alloc<nontrivial> make_alloc<prop_alloc<nontrivial>> (int id) { return prop_alloc<nontrivial> (id); }
+  struct alloc_maker
+  {
+    static constexpr A make (int, arena *) { return A (); }
+  };
+
+  template <class T>
+  struct alloc_maker<prop_alloc<T> >
+  {
+    static constexpr prop_alloc<T> make (int id, arena *a) { return prop_alloc<T> (id, a); }
+  };
 
   struct mod_pred
   {
@@ -142,11 +200,13 @@ namespace cx
   {
     using VA = gch::small_vector<T, N, A>;
     using VB = gch::small_vector<T, M, A>;
-    VA a (make_alloc<A> (1));
-    VA c (make_alloc<A> (2));
-    VB b (make_alloc<A> (1));
-    bool capa = true, capb = true, capc = true; // capacity comparable between the two executors
+    arena ar;
     trace tr;
+    {
+    VA a (alloc_maker<A>::make (1, &ar));
+    VA c (alloc_maker<A>::make (2, &ar));
+    VB b (alloc_maker<A>::make (1, &ar));
+    bool capa = true, capb = true, capc = true; // capacity comparable between the two executors
     for (unsigned i = 0; i < n && i < MAXSTEPS; ++i)
     {
       const op& o = ops[i];
@@ -251,6 +311,10 @@ namespace cx
       tr.h[i] = h.h;
       tr.n    = i + 1;
     }
+    } // containers destroyed: every block must be back, through the instance that produced it
+    tr.alloc_wrong_instance = ar.wrong_instance;
+    tr.alloc_unknown        = ar.unknown;
+    tr.alloc_leaked         = ar.n + ar.unbalanced ();
     return tr;
   }
 
